@@ -686,7 +686,7 @@ int vk_child_enabled(struct vk_child *c)
   if (c->pos >= c->nsteps) return 0;
   struct vk_step *st = &c->steps[c->pos];
   switch (st->op) {
-    case 'C': case 'D': case 'X': case 'K': case 'S':
+    case 'C': case 'D': case 'X': case 'K': case 'S': case 'Z':
       return 1;
     case 'T':
       return c->handled[st->a] > 0;
@@ -753,6 +753,7 @@ int vk_child_step(struct vk_child *c)
   switch (r.st) {
     case ST_DONE:
       if (st->op == 'C' && st->a >= 0 && st->a < 3) c->closed_fd[st->a] = 1;
+      if (st->op == 'Z') c->closed_fd[0] = c->closed_fd[1] = c->closed_fd[2] = 1;
       if (st->op == 'W') note_write(c, st->a, (uint32_t) (st->b - st->done));
       if (st->op == 'S') c->disp[st->a] = (char) st->b;
       c->pos++;
